@@ -4,4 +4,4 @@
 Require Import SB.Model.Show SB.Model.Lib.
 From Coq Require Import Extraction ExtrOcamlBasic QArith.
 Extraction Language OCaml.
-Extraction "Extract/model.ml" run_op SB.Model.Lib.Settings default_settings Qmake.
+Extraction "Extract/model.ml" run_op op_endorse op_emit SB.Model.Lib.Settings default_settings Qmake.
